@@ -16,7 +16,7 @@ Lemma without_epoch_drop v : without_epoch (drop_epoch v) = without_epoch v.
 Proof. reflexivity. Qed.
 
 Lemma wf_drop v : wf_v v -> wf_v (drop_epoch v).
-Proof. intros [He Hf Hu Hr]. split; cbn [drop_epoch epoch upstream revision]; auto. unfold max_int64. lia. Qed.
+Proof. intros [He Hf Hu Hr]. split; cbn [drop_epoch epoch upstream revision]; auto. unfold max_epoch. lia. Qed.
 
 (* for a well-formed version whose upstream part has no colon, the text without the epoch parses to the same
    version with epoch 0: nothing but the epoch is lost *)
